@@ -81,7 +81,9 @@ Qed.
 Lemma prim_assigns_shape p : exists l e, prim_assigns p = [(l, e)] /\ lnet l = fst (prim_out p).
 Proof.
   destruct p; cbn [prim_assigns prim_out]; try (do 2 eexists; split; reflexivity);
-    try (destruct ins as [|x t]; do 2 eexists; split; reflexivity).
+    try (destruct ins as [|x t]; do 2 eexists; split; reflexivity);
+    try (match goal with |- context [inl_range] => unfold inl_range | |- context [inl_signextend] => unfold inl_signextend end;
+         match goal with |- context [if ?c then _ else _] => destruct c end; do 2 eexists; split; reflexivity).
   - unfold inl_constant. destruct (1 <? snd r); do 2 eexists; split; reflexivity.
   - destruct (nth k (inl_bits a bits) (whole (nth k bits (O, 0)), RNum 0)) as [l e] eqn:E. exists l, e. split; [reflexivity|].
     destruct (Nat.lt_ge_cases k (length bits)) as [Hlt|Hge].
